@@ -1,6 +1,7 @@
 package gobwas
 
 import (
+	"bufio"
 	"context"
 	"io"
 	"net"
@@ -20,12 +21,28 @@ type rwc struct {
 // WebSocketDial returns a Codec that wraps a client-side connection with JSON
 // encoding and decoding.
 func WebSocketDial(ctx context.Context, url string) (jsonrpc2.Codec, error) {
-	conn, _, _, err := ws.Dial(ctx, url)
+	conn, br, _, err := ws.Dial(ctx, url)
 	if err != nil {
 		return nil, err
 	}
+	if br != nil {
+		// Frames the server sent right behind its handshake response were read
+		// along with it: they are in br, not on the connection anymore.
+		conn = bufferedConn{Conn: conn, r: br}
+	}
 
 	return clientWebSocketCodec(conn), nil
+}
+
+// bufferedConn is a net.Conn that is read through the buffered reader the
+// handshake left behind (which continues with the connection once drained).
+type bufferedConn struct {
+	net.Conn
+	r *bufio.Reader
+}
+
+func (c bufferedConn) Read(p []byte) (int, error) {
+	return c.r.Read(p)
 }
 
 func clientWebSocketCodec(conn net.Conn) jsonrpc2.Codec {
